@@ -46,6 +46,11 @@ def gen(rng, tier):
                     if S.DLEN[other] <= len(doc) - 1 and rng.random() < 0.5:
                         dg = doc[1:1 + S.DLEN[other]]
                     yield line(base, pol, bytes([other]) + dg, 0, up, "GEN-04")
+                # another algorithm with a digest of the same length: the same octets under the other id, and unrelated ones
+                for other in {1: [8, 0x0b], 0: [2], 4: [9], 5: [10]}.get(doc[0], []):
+                    yield line(base, pol, bytes([other]) + doc[1:], 0, up, "GEN-04")
+                    if rng.random() < 0.5:
+                        yield line(base, pol, bytes([other]) + rng.randbytes(len(doc) - 1), 0, up, "GEN-04")
                 if base.rfc:
                     yield line(base, pol, base.chains[0].input_hash, 0, up, "GEN-01" if base.chains[0].input_hash[0] == doc[0] else "GEN-04")
                 # levels
